@@ -32,12 +32,23 @@ BadTexts == {"X = ;", "print (1;", "for I in 1 to loop print I; end loop;", "X =
 Inter == { <<Let("X", I(5)), PrintS(<<V("X")>>), PrintS(<<Bin("/", I(1), I(0))>>), P1("after"), Return(I(7)), P1("more"), For("I", I(1), I(2), NoExpr, "auto", <<PrintS(<<V("I")>>)>>), RaiseS("ZZ"), Return(Str("s")), Return(NullC),
              Return(Call("tup", <<I(1), Str("a b"), D(5)>>)), Return(Call("tab", <<I(2), I(1)>>)), Return(Call("tab", <<I(0), Str("s")>>)), P1("end")>>,
            <<Func("SQ", <<"X">>, <<Return(Bin("*", V("X"), V("X")))>>), PrintS(<<UCall("SQ", <<I(3)>>)>>), Let("Y", Mem(Call("tab", <<I(1), I(1)>>), "at", <<I(9)>>)), PrintS(<<Str("y")>>)>>,
-           ShowArgs \o <<Return(B(FALSE))>> }
+           ShowArgs \o <<Return(B(FALSE))>>,
+           \* a return without value, then compound statements: they still run
+           <<P1("a"), Return(NoExpr), For("J", I(1), I(2), NoExpr, "auto", <<PrintS(<<Str("j="), V("J")>>)>>), If(B(TRUE), <<P1("then branch")>>, <<P1("else")>>),
+             Begin(<<P1("in block")>>, <<>>), Let("K", I(0)), While(Bin("<", V("K"), I(2)), <<Let("K", Bin("+", V("K"), I(1))), PutS(<<V("K")>>)>>), P1(""), Return(NoExpr), P1("z"),
+             Begin(<<Return(NoExpr)>>, <<>>), P1("y"), For("J", I(1), I(1), NoExpr, "auto", <<Return(NoExpr)>>), P1("x"), Return(I(3)), P1("w")>> }
 
 a1 == I(7)  a2 == I(2)  a3 == I(3)
 ExprTrees == {Bin(p, Bin(c, a1, a2), a3) : p \in {"+", "-", "*", "/", "%"}, c \in {"+", "*", "**"}} \cup {Bin("<", a1, a2), Bin("==", Str("a"), Str("a")), Str("text"), D(5), B(FALSE), NullC,
               Bin("/", a1, I(0)), Call("int", <<>>), Bin("+", Str("a"), Str("b")), Str("ratio 100%"), Str("%s%s%d")}
 
+\* a script with CRLF line ends and one long line, through the command's own readers (every length around the chunk size)
+LongProg == "abcdef = 12345678; print abcdef;"
+LongScenario(crlf) ==
+  LET t == IF crlf THEN LongProg \o "\r\nprint 2;\r\n" ELSE LongProg \o "\nprint 2;\n" IN
+  [prop |-> "C19", key |-> "long",
+   steps |-> <<[op |-> "execfrag", ctx |-> 0, reader |-> "string", text |-> t]>>
+             \o [k \in 1..92 |-> [op |-> "cli", mode |-> (IF k <= 46 THEN "file" ELSE "stdin"), text |-> t, padline |-> 984 + ((k - 1) % 46) + 1, args |-> <<>>, same_out_as |-> 1]]]
 VARIABLE p
 Init == p \in {[k |-> "prog", m |-> m, a |-> a, mode |-> mode] : m \in Progs, a \in DOMAIN ArgVecs, mode \in {"file", "stdin", "out"}}
               \cup {[k |-> "prog", m |-> m, a |-> 1, mode |-> mode] : m \in DeepProgs, mode \in {"file", "stdin", "out"}}
@@ -46,12 +57,14 @@ Init == p \in {[k |-> "prog", m |-> m, a |-> a, mode |-> mode] : m \in Progs, a 
               \cup {[k |-> "inter", m |-> m, a |-> a] : m \in Inter, a \in {1, 3}}
               \cup {[k |-> "expr", e |-> e] : e \in ExprTrees}
               \cup {[k |-> "badexpr", t |-> t] : t \in {"1 +", "(2", "foo(", "* 3"}}
+              \cup {[k |-> "long", c |-> c] : c \in BOOLEAN}
 Next == UNCHANGED p
 Scenario(q) ==
   CASE q.k = "prog" -> [prop |-> "C19", key |-> q.mode, steps |-> <<[op |-> "cli", mode |-> q.mode, ast |-> q.m, text |-> Render(q.m), args |-> ArgVecs[q.a]]>>]
     [] q.k = "bad" -> [prop |-> "C19", key |-> "bad", steps |-> <<[op |-> "cli", mode |-> q.mode, reject |-> TRUE, text |-> q.t, args |-> <<>>]>>]
     [] q.k = "inter" -> [prop |-> "C19", key |-> "inter", steps |-> <<[op |-> "cli", mode |-> "inter", ast |-> q.m, text |-> Render(q.m) \o "\n", args |-> ArgVecs[q.a]]>>]
     [] q.k = "expr" -> [prop |-> "C19", key |-> "expr", steps |-> <<[op |-> "cli", mode |-> "expr", ast |-> q.e, text |-> RMin(q.e), args |-> <<>>]>>]
+    [] q.k = "long" -> LongScenario(q.c)
     [] q.k = "badexpr" -> [prop |-> "C19", key |-> "badexpr", steps |-> <<[op |-> "cli", mode |-> "expr", reject |-> TRUE, text |-> q.t, args |-> <<>>]>>]
 Emit == PrintT("@@S " \o ToJson(Scenario(p)))
 =============================================================================
